@@ -78,7 +78,10 @@ class SimFS:
     # -- os.*
     def exists(self, p: str) -> bool:
         self._seam("exists", p)
-        return self._resolve(p) in self.files
+        try:
+            return self._resolve(p) in self.files
+        except OSError:
+            return False
 
     def stat(self, p: str) -> StatResult:
         self._seam("stat", p)
